@@ -478,6 +478,38 @@ class Circuit:
         return True, enabled, compare(cmp_, inp.get(f_sig, 0), rhs)
 
 
+try:  # the game's signal names, taken once at import: the compiler adds names to this table while it runs
+    from draftsman.data import signals as _game_signals
+
+    GAME_SIGNALS = frozenset(_game_signals.raw)
+except Exception:  # noqa: BLE001
+    GAME_SIGNALS = frozenset()
+
+
+def unknown_signals(bp_json) -> list:
+    """Signal names used in any control behaviour that the game data does not contain (a blueprint
+    naming one cannot be imported)."""
+    if not GAME_SIGNALS:
+        return []
+    found = set()
+
+    def walk(o):
+        if isinstance(o, dict):
+            n = o.get("name")
+            if isinstance(n, str) and ("type" in o or set(o) <= {"name", "quality", "comparator", "count", "index"}):
+                if n not in GAME_SIGNALS:
+                    found.add(n)
+            for v in o.values():
+                walk(v)
+        elif isinstance(o, list):
+            for v in o:
+                walk(v)
+
+    for e in (bp_json.get("blueprint") or bp_json).get("entities", []):
+        walk(e.get("control_behavior") or {})
+    return sorted(found)
+
+
 def load(bp_json) -> Circuit:
     import copy
     import json
@@ -486,4 +518,7 @@ def load(bp_json) -> Circuit:
         bp_json = json.loads(bp_json)
     else:
         bp_json = copy.deepcopy(bp_json)
+    bad = unknown_signals(bp_json)
+    if bad:
+        raise SimError(f"the blueprint names signals the game does not have: {bad[:4]}")
     return Circuit(bp_json)
